@@ -105,10 +105,14 @@ def run(model, col, tier):
     from ..report import Collector
 
     sub = Collector("C03")
-    c03.run(model, sub, "quick")
+    c03.run(model, sub, "quick", share=False)
     for ob in sub.obligations:
         if ob.rule in ("R03.1", "R03.2"):
             ob.rule = "R15.2"
+            col.obligations.append(ob)
+        elif ob.rule == "R03.3":
+            # no arm changes a stored value (a global's vector, the host's argument) in place except the element/member stores
+            ob.rule = "R15.1"
             col.obligations.append(ob)
     # ---------------- R15.3 ------------------------------------------------------
     writers = []
@@ -191,3 +195,14 @@ def run(model, col, tier):
             texts = [" ".join(unparse(b).split()) for b in body]
             consts_ok = any(f"{tv}.Reference" in t_ for t_ in texts) and any(f"{tv}.Value" in t_ for t_ in texts)
     col.check(consts_ok, "R15.5", f"{VM}::__Execute constants", "constants are copied into the fresh value map by value reference", None, VM, vm.execute)
+    # ---------------- R15.6 ------------------------------------------------------
+    # with optimisation on, a load of a global is only replaced by the value of the store *directly* before it in the same block
+    # (= R02.7): an intervening call can assign the global, so forwarding across it reads a stale value
+    from . import c02
+
+    sub = Collector("C02")
+    c02.run(model, sub, "quick")
+    for ob in sub.obligations:
+        if ob.rule == "R02.7":
+            ob.rule = "R15.6"
+            col.obligations.append(ob)
